@@ -322,7 +322,7 @@ func flip(raw []byte, byteIdx, bit int) []byte {
 func TestC07(t *testing.T) {
 	env := kit.GetEnv()
 	rep := kit.NewReport("C07", env)
-	rep.Rule = "per ping kind (hello req/resp, pong req/resp, error codes 0-4 + unknown, disconnect going-down/list, announce with 0 and 1 hop), produced by the real sender code of peer X in a fresh 6-router world: (a) every single-bit flip of every authenticated header byte (all except TTL/flow), the length fields and the signature/MAC, and one bit per body byte (thorough: all bits); (b) source rewritten to each other known identity, destination rewritten; (c) same ping re-built and sealed by another router claiming X's address; (d) first-contact variants with header key right / wrong / for another address; (e) replay of the exact frame after {nothing, a newer valid ping from X, a ping from Y, +31 s}; (f) the valid ping itself with its type-specific effect bound; snapshot = table + sessions(keys, MTU) + stored info/offline flags + connection verdicts; non-trivial = mutation hits an authenticated byte or the case must be rejected; states = distinct snapshots observed"
+	rep.Rule = "per ping kind (hello req/resp, pong req/resp, error codes 0-4 + unknown, disconnect going-down/list, announce with 0 and 1 hop), produced by the real sender code of peer X in a fresh 6-router world: (a) every single-bit flip of every authenticated header byte (all except TTL/flow), the length fields and the signature/MAC, and one bit per body byte (thorough: all bits); (b) source rewritten to each other known identity, destination rewritten; (c) same ping re-built and sealed by another router claiming X's address; (d) first-contact variants with header key right / wrong / for another address; (e) replay of the exact frame after {nothing, a newer valid ping from X, a ping from Y, +31 s, a newer valid ping of each of the other kinds from X}; (f) the valid ping itself with its type-specific effect bound; snapshot = table + sessions(keys, MTU) + stored info/offline flags + connection verdicts; non-trivial = mutation hits an authenticated byte or the case must be rejected; states = distinct snapshots observed"
 	rep.Assumptions = []string{
 		"state is observed through exported accessors plus the VerifEntries hook; pending-ping bookkeeping (active hello/pong ids, error rate limiter) is not part of the statement's state list",
 		"disconnect pings are addressed to the router itself: as emitted by the real sender (unicast type to the multicast address) they are never dispatched to the disconnect handler at all",
@@ -487,7 +487,13 @@ func TestC07(t *testing.T) {
 			mustUnchanged(k, "sealed-by-other-router", o, map[string]any{"kind": k.name, "impostor": imp})
 		}
 		// (e) replays.
-		for ri, between := range []string{"nothing", "newer-ping-from-X", "ping-from-Y", "clock+31s"} {
+		betweens := []string{"nothing", "newer-ping-from-X", "ping-from-Y", "clock+31s"}
+		for _, other := range ks {
+			if other.sender == "" && !other.hop {
+				betweens = append(betweens, "kind:"+other.name)
+			}
+		}
+		for ri, between := range betweens {
 			if !mine() {
 				continue
 			}
@@ -514,6 +520,19 @@ func TestC07(t *testing.T) {
 					tw.w.Inject(tw.y, tw.r, b)
 				case "clock+31s":
 					time.Sleep(31 * time.Second)
+				default:
+					// another valid, newer ping of the given kind from the same router.
+					time.Sleep(2 * time.Millisecond)
+					for _, other := range ks {
+						if "kind:"+other.name == between && other.name != k.name {
+							// (the senders' own rate limits may refuse a second ping of a kind; then nothing intervenes)
+							kit.Try(func() {
+								time.Sleep(11 * time.Second)
+								nb := other.mk(tw)
+								tw.w.Inject(tw.x, tw.r, nb)
+							})
+						}
+					}
 				}
 				tw.w.InFlight = nil
 			})
@@ -522,7 +541,7 @@ func TestC07(t *testing.T) {
 			// a replay must change nothing; for hop pings the exact duplicate of the newest
 			// announcement is tolerated but must leave the routing table unchanged.
 			bad := o.changed
-			if k.hop && between != "newer-ping-from-X" {
+			if k.hop && (between == "nothing" || between == "ping-from-Y" || between == "clock+31s") {
 				bad = nil
 				for _, c := range o.changed {
 					if c == "table" {
